@@ -237,6 +237,18 @@ class ValueSpecBase(ValueSpec):
       raise TypeError(f'{self!r} cannot extend {base!r}: '
                       f'None is not allowed in base spec.')
     self._extend(base)  # pytype: disable=wrong-arg-types  # always-use-return-annotations
+
+    # The default value must still be acceptable after the spec is narrowed.
+    if MISSING_VALUE != self._default:
+      frozen, self._frozen = self._frozen, False
+      try:
+        self._default = self.apply(self._default, allow_partial=True)
+      except (TypeError, ValueError, KeyError) as e:
+        raise TypeError(
+            f'{self!r} cannot extend {base!r}: the default value '
+            f'{self._default!r} is not acceptable after extension.') from e
+      finally:
+        self._frozen = frozen
     return self
 
   def _extend(self, base: ValueSpec) -> None:
